@@ -236,14 +236,14 @@ META = {
         "level": "exploration",
         "design_ref": "DESIGN.md §4 C13",
         "technique": "property-based testing with assembly probes: generated register files loaded by a caller stub and recorded by a recorder fake (both trampoline forms) + differential Rust-level signature shapes (faked call vs. direct call of the fake) + decoded register discipline of the arm64 sequences",
-        "text": "4*10^3 / 4*10^5 generated register files (6 integer argument registers, xmm0-7 at 128 bits, 0-16 stack words, rbx/rbp/r12-r15, returned rax/rdx/xmm0/xmm1) with near (rel32) and far (mov rax; jmp rax) fakes, each form >= 30% of cases (else exit 2): the fake must see exactly what the caller set incl. rsp and the return address, the caller exactly what the fake returned, callee-saved registers and rsp preserved. 4*10^3 / 4*10^5 cases over 10 Rust-level shapes (stack-passed integers and doubles, 48-byte aggregates, hidden return slot, u128 and scalar-pair returns, extern C twins) compared differentially. arm64: registers written by the emitted sequences must be within x9..x17 and never sp (simulation).",
+        "text": "4*10^3 / 4*10^5 generated register files (6 integer argument registers, xmm0-7 at 128 bits, 0-16 stack words, rbx/rbp/r12-r15, returned rax/rdx/xmm0/xmm1) with near (rel32) and far (out of rel32 reach of the trampoline) fakes, each form >= 30% of cases (else exit 2): the fake must see exactly what the caller set incl. rsp and the return address, the caller exactly what the fake returned, callee-saved registers and rsp preserved. 4*10^3 / 4*10^5 cases over 10 Rust-level shapes (stack-passed integers and doubles, 48-byte aggregates, hidden return slot, u128 and scalar-pair returns, extern C twins) compared differentially. Every probe case may carry earlier installations on the same function, make its call at the moment the library flushes the entry it has just patched, and synthetic originals start with a generated prologue. The placement engine of C01 runs here too (a fake that is never entered receives nothing). arm64: registers written by the emitted sequences must be within x9..x17 and never sp (simulation).",
         "note": NATIVE_NOTE + " rax, r10, r11 on entry to the fake are not compared (caller-saved, carry no argument of the supported signatures; the long form legitimately uses rax). The 32-bit ARM scratch-register question is judged once, under C16.",
     },
     "C14": {
         "level": "exploration",
         "design_ref": "DESIGN.md §4 C14",
         "technique": "stateful (model-based) property-based testing: generated fake / await / re-fake / end-of-lifetime histories over a family of sibling async functions, driven by a hand-written single-poll executor on several threads; oracle = reference model of the current value per function + poll counts + evaluation and side-effect counters",
-        "text": "2.4*10^3 (quick) / 1.2*10^5 (thorough) generated histories of up to 24 operations over 11 async functions (free functions and a method, by-value and by-reference parameters, unit/scalar/heap/264-byte by-memory outputs, three functions sharing the output type u32 and two sharing String): while faked, the first poll is Ready with the latest fake's value on every executor thread, the value expression is evaluated exactly once per await, the original body does not run; every unfaked function, including same-output-type siblings of a faked one, yields its original value in two polls; after the lifetime everything is original again.",
+        "text": "2.4*10^3 (quick) / 1.2*10^5 (thorough) generated histories of up to 24 operations over 11 async functions (free functions and a method, by-value and by-reference parameters, unit/scalar/heap/264-byte by-memory outputs, three functions sharing the output type u32 and two sharing String): while faked, the first poll is Ready with the latest fake's value on every executor thread, the value expression is evaluated exactly once per await, the original body does not run; every unfaked function, including same-output-type siblings of a faked one, yields its original value in two polls; after the lifetime (ended normally or by unwinding) everything is original again; an await may be made while the installation is being completed (from the interposer's flush hook). A second engine places the poll function's trampoline and a synthetic poll function at generated displacements (the async share of C01's placement engine).",
         "note": NATIVE_NOTE + " The executor is single-poll and hand-written (no tokio): what is judged is the poll function the injector patches, not a runtime.",
     },
     "C12": {
